@@ -549,7 +549,7 @@ impl ProcfsHandle {
         // And make sure it's the root of procfs. The root directory is
         // guaranteed to have an inode number of PROC_ROOT_INO. If this check
         // ever stops working, it's a kernel regression.
-        let ino = inner.metadata().expect("fstat(/proc) should work").ino();
+        let ino = inner.metadata().wrap("fstat /proc handle")?.ino();
         if ino != Self::PROC_ROOT_INO {
             Err(ErrorImpl::SafetyViolation {
                 description: format!(
